@@ -398,8 +398,9 @@ func vcPropUniverses(prop *vcProp) []string {
 }
 
 // vcPlan lists the explorations of this run. Quick: graph mode depth 3 from the empty, full and alt
-// base states of every universe. Thorough: additionally the unsynced base, tree mode (no merging)
-// depth 3 from empty, and graph mode depth 4 from every base.
+// base states of every universe (+ depth 4 from empty for the property's QuickDeep universes).
+// Thorough: additionally the unsynced base, tree mode (no merging) depth 3 from empty, graph mode
+// depth 4 from every base and depth 5 from the empty and full bases (deadline permitting).
 func vcPlan(c *vk.Ctx, prop *vcProp) []vcPlanItem {
 	us := vcUniverses()
 	var plan []vcPlanItem
@@ -415,6 +416,11 @@ func vcPlan(c *vk.Ctx, prop *vcProp) []vcPlanItem {
 			add(un, base, 3, false)
 		}
 	}
+	if c.Quick() {
+		for _, un := range prop.QuickDeep {
+			add(un, "empty", 4, false)
+		}
+	}
 	if c.Thorough() {
 		for _, un := range vcPropUniverses(prop) {
 			add(un, "unsynced", 3, false)
@@ -424,6 +430,10 @@ func vcPlan(c *vk.Ctx, prop *vcProp) []vcPlanItem {
 			for _, base := range vcBaseOrder {
 				add(un, base, 4, false)
 			}
+		}
+		for _, un := range vcPropUniverses(prop) {
+			add(un, "empty", 5, false)
+			add(un, "full", 5, false)
 		}
 	}
 	return plan
